@@ -80,14 +80,50 @@ theorem inv_recvFinish {s : State} {t : Nat} {r : Bool} (hi : Inv s) (hc : s.can
       case chunks_ne => simpa using hrest
       all_goals (simp [upd_apply] <;> grind)
 
-/-- `send` after its checkpoint, run by the (not cancelled) task inside the send guard -/
+/-! `send` after its checkpoint, run by the (not cancelled) task inside the send guard -/
+
+theorem inv_setWritten {s : State} (w : Bytes) (hi : Inv s) : Inv { s with written := w } := by
+  obtain ⟨h1, h2, h2', h3, h4, h5, h6, h6', h7, h8, h9, h10, h11, h12, h13, h14, h14'⟩ := hi
+  exact ⟨h1, h2, h2', h3, h4, h5, h6, h6', h7, h8, h9, h10, h11, h12, h13, h14, h14'⟩
+
+theorem inv_sendExit {s : State} {t : Nat} (hi : Inv s) (hc : s.canc t = false)
+    (hpc : s.pc t = .sendChk ∨ s.pc t = .sendWait ∨ s.pc t = .sendWoken) :
+    Inv { s with sowner := none, pc := upd s.pc t .idle } := by
+  obtain ⟨h1, h2, h2', h3, h4, h5, h6, h6', h7, h8, h9, h10, h11, h12, h13, h14, h14'⟩ := id hi
+  constructor <;> simp only [upd_apply] <;> grind
+
+theorem inv_sendBlock {s : State} {t : Nat} (hi : Inv s) (hc : s.canc t = false)
+    (hpc : s.pc t = .sendChk) (hw : s.writeOpen = false) :
+    Inv { s with pc := upd s.pc t .sendWait } := by
+  obtain ⟨h1, h2, h2', h3, h4, h5, h6, h6', h7, h8, h9, h10, h11, h12, h13, h14, h14'⟩ := id hi
+  constructor <;> simp only [upd_apply] <;> grind
+
 theorem inv_sendWrite {s : State} {t : Nat} (hi : Inv s) (hc : s.canc t = false)
     (hpc : s.pc t = .sendChk) : Inv (sendWrite s t).1 := by
-  obtain ⟨h1, h2, h2', h3, h4, h5, h6, h6', h7, h8, h9, h10, h11, h12, h13, h14, h14'⟩ := id hi
-  by_cases hl : s.lost = true <;> by_cases hw : s.writeOpen = true <;>
-    simp only [sendWrite, hl, hw, if_true, if_false, Bool.false_eq_true] <;>
-    (repeat' split) <;>
-    (constructor <;> simp only [upd_apply] <;> grind)
+  have hx := inv_sendExit hi hc (Or.inl hpc)
+  by_cases hl : s.lost = true
+  · by_cases hw : s.writeOpen = true
+    · simp only [sendWrite, if_pos hl, if_pos hw]
+      repeat' split
+      all_goals exact hx
+    · have hw' : s.writeOpen = false := by simpa using hw
+      simp only [sendWrite, if_pos hl, if_neg hw]
+      repeat' split
+      all_goals first | exact hx | exact inv_sendBlock hi hc hpc hw'
+  · by_cases hw : s.writeOpen = true
+    · simp only [sendWrite, if_neg hl, if_pos hw]
+      repeat' split
+      all_goals first
+        | exact hx
+        | exact inv_sendExit (s := { s with written := s.written ++ s.item t })
+            (inv_setWritten _ hi) hc (Or.inl hpc)
+    · have hw' : s.writeOpen = false := by simpa using hw
+      simp only [sendWrite, if_neg hl, if_neg hw]
+      repeat' split
+      all_goals first
+        | exact hx
+        | exact inv_sendBlock (s := { s with written := s.written ++ s.item t })
+            (inv_setWritten _ hi) hc hpc hw'
 
 theorem inv_taskStep {s s' : State} {t : Nat} {o : Out} (hi : Inv s)
     (hs : step s (.step t) = some (s', o)) : Inv s' := by
